@@ -286,31 +286,6 @@ private theorem tsContainers_incident (ops : List Op) (dels dn de : List Nat) :
   · exact fun n d => TS.adjacentEdges_eq r n d
   · exact fun n d => Proj.adjacentEdges_eq r dn de n d
 
-private theorem ts_traverse_leaves_eq (bfs : Bool) (ops : List Op) (dels dn de : List Nat) (d : Dir) (filt : Edge → Bool)
-    (maxDepth : Int) (root : Nat) :
-    ∀ c ∈ tsContainers ops dels dn de, Terminates c.2 d filt maxDepth →
-      ∃ F fuel0,
-        (∀ F', F ≤ F' → maxWalks c.2 d filt maxDepth Edge.other F' [⟨root, 0⟩] = maxWalks c.2 d filt maxDepth Edge.other F [⟨root, 0⟩]) ∧
-        ∀ fuel, fuel0 ≤ fuel → ∃ out inc,
-          tsTraverse bfs true (fun n => c.1 n d) d filt maxDepth fuel root = some (out, inc) ∧
-          out.Perm (maxWalks c.2 d filt maxDepth Edge.other F [⟨root, 0⟩]) ∧
-          inc = (out.filter (segExceeded maxDepth)).length := by
-  intro c hc hterm
-  have hadj : (fun n => c.1 n d) = (fun n => c.2.incident n d) := by
-    funext n; exact tsContainers_incident ops dels dn de c hc n d
-  have hb : ∃ F, Bounded (segChildren (fun n => c.2.incident n d) filt maxDepth Edge.other) F [⟨root, 0⟩] := by
-    rcases hterm with hmd | ⟨rk, hrk⟩
-    · exact ⟨maxDepth.toNat + 1, seg_bounded_depth _ filt maxDepth _ hmd maxDepth.toNat [⟨root, 0⟩] (by simp; omega)⟩
-    · exact ⟨rk root + 1, seg_bounded_rank _ filt maxDepth _ rk hrk (rk root) [⟨root, 0⟩] (Nat.le_refl _)⟩
-  obtain ⟨F, hF⟩ := hb
-  refine ⟨F, treeSize (segChildren (fun n => c.2.incident n d) filt maxDepth Edge.other) F [⟨root, 0⟩], ?_, ?_⟩
-  · intro F' hle
-    exact treeLeaves_stable_le _ _ hF hle
-  · intro fuel hfuel
-    unfold tsTraverse
-    rw [hadj, pickAt_true]
-    exact travLoop_root bfs _ segIsPath (segExceeded maxDepth) F [⟨root, 0⟩] hF fuel hfuel
-
 /-- `TSBFS` over the store and over every projection: under `Terminates` it completes for every sufficiently
 large fuel (explicit bound: the number of nodes of the walk tree), and the handler receives — as a multiset,
 i.e. each exactly as often as it occurs, hence once per walk — exactly the maximal filter-admitted walks within
@@ -324,7 +299,7 @@ theorem tsbfs_leaves_eq (ops : List Op) (dels dn de : List Nat) (d : Dir) (filt 
           tsTraverse true true (fun n => c.1 n d) d filt maxDepth fuel root = some (out, inc) ∧
           out.Perm (maxWalks c.2 d filt maxDepth Edge.other F [⟨root, 0⟩]) ∧
           inc = (out.filter (segExceeded maxDepth)).length :=
-  ts_traverse_leaves_eq true ops dels dn de d filt maxDepth root
+  fun c hc hterm => traverse_of_incident true c.1 c.2 (tsContainers_incident ops dels dn de c hc) d filt maxDepth root hterm
 
 /-- `TSDFS`: the same statement for the `PopBack` loop. -/
 theorem tsdfs_leaves_eq (ops : List Op) (dels dn de : List Nat) (d : Dir) (filt : Edge → Bool) (maxDepth : Int) (root : Nat) :
@@ -335,7 +310,7 @@ theorem tsdfs_leaves_eq (ops : List Op) (dels dn de : List Nat) (d : Dir) (filt 
           tsTraverse false true (fun n => c.1 n d) d filt maxDepth fuel root = some (out, inc) ∧
           out.Perm (maxWalks c.2 d filt maxDepth Edge.other F [⟨root, 0⟩]) ∧
           inc = (out.filter (segExceeded maxDepth)).length :=
-  ts_traverse_leaves_eq false ops dels dn de d filt maxDepth root
+  fun c hc hterm => traverse_of_incident false c.1 c.2 (tsContainers_incident ops dels dn de c hc) d filt maxDepth root hterm
 
 /-- `TSStatelessBFS`: under `Terminates` (for the weighted filter) it completes, and the terminal handler receives
 exactly (as a multiset) the terminals `(end node, distance, weight product)` of the maximal admitted walks
@@ -351,50 +326,36 @@ theorem stateless_bfs_dist_eq (ops : List Op) (dels dn de : List Nat) (d : Dir) 
           inc = (out.filter (ptExceeded maxDepth)).length ∧
           ∀ t ∈ out, 1 ≤ t.dist ∧ t.node ∈ walkEnds (admittedEnds (fun n => c.2.incident n d) wfilt) root t.dist := by
   intro c hc hterm
-  have hadj : (fun n => c.1 n d) = (fun n => c.2.incident n d) := by
-    funext n; exact tsContainers_incident ops dels dn de c hc n d
-  have hb : ∃ F, Bounded (ptChildren (fun n => c.2.incident n d) wfilt maxDepth Edge.other) F ⟨root, 0, 0⟩ := by
-    rcases hterm with hmd | ⟨rk, hrk⟩
-    · exact ⟨maxDepth.toNat + 2, pt_bounded_depth _ wfilt maxDepth _ hmd (maxDepth.toNat + 1) ⟨root, 0, 0⟩ (by simp)⟩
-    · exact ⟨rk root + 1, pt_bounded_rank _ wfilt maxDepth _ rk hrk (rk root) ⟨root, 0, 0⟩ (Nat.le_refl _)⟩
-  obtain ⟨F, hF⟩ := hb
-  refine ⟨F, treeSize (ptChildren (fun n => c.2.incident n d) wfilt maxDepth Edge.other) F ⟨root, 0, 0⟩, ?_, ?_⟩
-  · intro F' hle
-    exact treeLeaves_stable_le _ _ hF hle
-  · intro fuel hfuel
-    unfold statelessBFS
-    rw [hadj, pickAt_true]
-    obtain ⟨out, inc, h1, h2, h3⟩ := travLoop_root true _ ptIsPath (ptExceeded maxDepth) F ⟨root, 0, 0⟩ hF fuel hfuel
-    refine ⟨out, inc, h1, h2, h3, ?_⟩
-    intro t ht
-    have hmem := h2.mem_iff.mp ht
-    refine ⟨?_, ptLeaves_walk _ wfilt maxDepth root F ⟨root, 0, 0⟩ t (by simp [walkEnds_zero]) hmem⟩
-    have := treeLeaves_isPath _ ptIsPath F _ t hmem
-    simpa [ptIsPath] using this
+  exact stateless_of_incident c.1 c.2 (tsContainers_incident ops dels dn de c hc) d wfilt maxDepth root hterm
 
 /-! ### NumEdges -/
 
 /-- `NumEdges` against the edge list, for every history, any tombstones and ANY deleted-id sets (ids that are not
-nodes or edges of the store included): the CSR digraph counts the distinct (start, end) pairs, the triple store
-every triple, a projection exactly the triples of the projected graph; without parallel edges CSR and store agree.
-Two known findings, stated precisely: the store's count ignores `DeleteEdge` (it is `|edges|` whatever `dels`), and
-`adjacencyMapDigraph.NumEdges` returns the NODE count. -/
+nodes or edges of the store included): the adjacency map and the CSR digraph both count the distinct
+(start, end) pairs — hence agree for ALL histories —, the triple store every triple, a projection exactly the
+triples of the projected graph; without parallel edges all of them agree. Known finding, stated precisely: the
+store's count ignores `DeleteEdge` (it is `|edges|` whatever `dels`). -/
 theorem numEdges_eq (ops : List Op) (dels dn de : List Nat) :
     let g := G.ofOps ops
+    (AdjMap.build ops).numEdges = g.pairs.length ∧
     (Csr.ofOps ops).numEdges = g.pairs.length ∧
+    (AdjMap.build ops).numEdges = (Csr.ofOps ops).numEdges ∧
     (tsOf ops dels).numEdges = g.edges.length ∧
     Proj.numEdges ⟨tsOf ops dels, dn, de⟩ = (g.project dn de).edges.length ∧
-    ((g.edges.map (fun e => (e.start, e.stop))).Nodup → (Csr.ofOps ops).numEdges = (tsOf ops dels).numEdges) ∧
-    (AdjMap.build ops).numEdges = (AdjMap.build ops).numNodes := by
+    ((g.edges.map (fun e => (e.start, e.stop))).Nodup →
+      (AdjMap.build ops).numEdges = (tsOf ops dels).numEdges ∧ (Csr.ofOps ops).numEdges = (tsOf ops dels).numEdges) := by
   intro g
   have rc := CsrB.rel_ofOps ops
   have rt := TS.deleteAll_rel (TS.rel_build ops) dels
+  have h0 : (AdjMap.build ops).numEdges = g.pairs.length := AdjMap.numEdges_spec (AdjMap.rel_build ops)
   have h1 : (Csr.ofOps ops).numEdges = g.pairs.length := Csr.numEdges_spec rc
   have h2 : (tsOf ops dels).numEdges = g.edges.length := TS.numEdges_spec rt
-  exact ⟨h1, h2, Proj.numEdges_spec rt dn de, fun hn => by rw [h1, h2, pairs_length_of_nodup hn], rfl⟩
+  exact ⟨h0, h1, h0.trans h1.symm, h2, Proj.numEdges_spec rt dn de,
+    fun hn => ⟨by rw [h0, h2, pairs_length_of_nodup hn], by rw [h1, h2, pairs_length_of_nodup hn]⟩⟩
 
-/-- KNOWN FINDING (C14:adjacencyMapDigraph.NumEdges:returns-node-count): edges 1→2, 1→3 — two edges, `NumEdges() = 3`. -/
-theorem adjmap_numEdges_refuted : ¬ ∀ ops, (AdjMap.build ops).numEdges = (G.ofOps ops).pairs.length := by
+/-- C14:adjacencyMapDigraph.NumEdges:returns-node-count (repaired by hooks/C14-fix2.patch): before the repair
+`NumEdges` returned the NODE count — edges 1→2, 1→3: two edges, `NumEdges() = 3`. -/
+theorem adjmap_numEdges_refuted_old : ¬ ∀ ops, (AdjMap.build ops).numEdgesOld = (G.ofOps ops).pairs.length := by
   intro h
   have := h [.edge 10 1 2, .edge 11 1 3]
   revert this; decide
@@ -405,6 +366,72 @@ theorem ts_numEdges_tombstone_refuted :
   intro h
   have := h [.edge 10 1 2] [10]
   revert this; decide
+
+/-! ### Proposed repair hooks/C14-fix3.patch (NOT in /repo): every read path honours `DeleteEdge`
+
+The theorems below are about the `tomb = true` definitions (`TS.adjacentEdgesT`, `Proj.adjacentT`, `…numEdgesT`),
+i.e. the code with that patch applied; they become the live statements (replacing `proj_tombstone_partial/_refuted`,
+`ts_numEdges_tombstone_refuted` and the un-tombstoned graph in `tsContainers`) when it lands. -/
+
+/-- store and projections under the fix3 semantics, each with the graph it must present: the edge list minus the
+tombstoned ids (and minus the projection's deleted sets). -/
+def tsContainersFix3 (ops : List Op) (dels dn de : List Nat) : List ((Nat → Dir → List Edge) × G) :=
+  [ ((tsOf ops dels).adjacentEdgesT true, (G.ofOps ops).dropEdges dels),
+    (Proj.adjacentEdgesT true ⟨tsOf ops dels, dn, de⟩, ((G.ofOps ops).dropEdges dels).project dn de) ]
+
+private theorem tsOf_deleted_congr (ops : List Op) (dels : List Nat) :
+    (G.ofOps ops).dropEdges (tsOf ops dels).deleted = (G.ofOps ops).dropEdges dels := by
+  apply G.dropEdges_congr
+  intro x
+  show x ∈ ((TS.build ops).deleteAll dels).deleted ↔ _
+  rw [TS.deleteAll_deleted, TS.build_deleted]; simp
+
+private theorem tsContainersFix3_incident (ops : List Op) (dels dn de : List Nat) :
+    ∀ c ∈ tsContainersFix3 ops dels dn de, ∀ n d, c.1 n d = c.2.incident n d := by
+  have r := TS.deleteAll_rel (TS.rel_build ops) dels
+  intro c hc
+  simp only [tsContainersFix3, List.mem_cons, List.not_mem_nil, or_false] at hc
+  rcases hc with rfl | rfl
+  · intro n d; rw [← tsOf_deleted_congr]; exact TS.adjacentEdgesT_eq r n d
+  · intro n d; rw [← tsOf_deleted_congr]; exact Proj.adjacentEdgesT_eq r dn de n d
+
+/-- with fix3 every projection of a tombstoned store presents what the store presents, projected. -/
+theorem proj_adj_eq_fix3 (ops : List Op) (dels dn de : List Nat) :
+    Presents (Proj.adjacentT true true ⟨tsOf ops dels, dn, de⟩) (((G.ofOps ops).dropEdges dels).project dn de) := by
+  intro v d y
+  rw [← tsOf_deleted_congr]
+  exact Proj.adjacentT_spec (TS.deleteAll_rel (TS.rel_build ops) dels) dn de v y d
+
+/-- with fix3 `NumEdges` of the store and of every projection counts exactly the live triples. -/
+theorem numEdges_eq_fix3 (ops : List Op) (dels dn de : List Nat) :
+    (tsOf ops dels).numEdgesT true = ((G.ofOps ops).dropEdges dels).edges.length ∧
+    Proj.numEdgesT true ⟨tsOf ops dels, dn, de⟩ = (((G.ofOps ops).dropEdges dels).project dn de).edges.length := by
+  have r : (tsOf ops dels).Rel (G.ofOps ops) := TS.deleteAll_rel (TS.rel_build ops) dels
+  constructor
+  · unfold TS.numEdgesT; rw [TS.edgesT_eq r, tsOf_deleted_congr]
+  · unfold Proj.numEdgesT; simp only; rw [TS.edgesT_eq r, tsOf_deleted_congr, project_edges_eq]; rfl
+
+/-- with fix3 TSBFS / TSDFS / TSStatelessBFS walk the tombstone-free graph (same statements as above). -/
+theorem traversals_eq_fix3 (ops : List Op) (dels dn de : List Nat) (d : Dir) (filt : Edge → Bool) (wfilt : Edge → Option Nat)
+    (maxDepth : Int) (root : Nat) :
+    ∀ c ∈ tsContainersFix3 ops dels dn de,
+      (Terminates c.2 d filt maxDepth → ∀ bfs, ∃ F fuel0,
+        (∀ F', F ≤ F' → maxWalks c.2 d filt maxDepth Edge.other F' [⟨root, 0⟩] = maxWalks c.2 d filt maxDepth Edge.other F [⟨root, 0⟩]) ∧
+        ∀ fuel, fuel0 ≤ fuel → ∃ out inc,
+          tsTraverse bfs true (fun n => c.1 n d) d filt maxDepth fuel root = some (out, inc) ∧
+          out.Perm (maxWalks c.2 d filt maxDepth Edge.other F [⟨root, 0⟩]) ∧
+          inc = (out.filter (segExceeded maxDepth)).length) ∧
+      (Terminates c.2 d (fun e => (wfilt e).isSome) maxDepth → ∃ F fuel0,
+        (∀ F', F ≤ F' → maxTerms c.2 d wfilt maxDepth F' ⟨root, 0, 0⟩ = maxTerms c.2 d wfilt maxDepth F ⟨root, 0, 0⟩) ∧
+        ∀ fuel, fuel0 ≤ fuel → ∃ out inc,
+          statelessBFS true (fun n => c.1 n d) d wfilt maxDepth fuel root = some (out, inc) ∧
+          out.Perm (maxTerms c.2 d wfilt maxDepth F ⟨root, 0, 0⟩) ∧
+          inc = (out.filter (ptExceeded maxDepth)).length ∧
+          ∀ t ∈ out, 1 ≤ t.dist ∧ t.node ∈ walkEnds (admittedEnds (fun n => c.2.incident n d) wfilt) root t.dist) := by
+  intro c hc
+  have hinc := tsContainersFix3_incident ops dels dn de c hc
+  exact ⟨fun hterm bfs => traverse_of_incident bfs c.1 c.2 hinc d filt maxDepth root hterm,
+         fun hterm => stateless_of_incident c.1 c.2 hinc d wfilt maxDepth root hterm⟩
 
 /-! ### Degrees / Dimensions -/
 
@@ -558,9 +585,14 @@ example : statelessBFS true (fun n => (tsOf demoOps []).adjacentEdges n .out) .o
 -- a filtered cycle with maxDepth ≤ 0 (the excluded point) exhausts any fuel in the model
 example : tsTraverse true true (fun n => (tsOf demoOps []).adjacentEdges n .out) .out (fun _ => true) 0 50 7 = none := by decide
 example : (Csr.ofOps demoOps).numEdges = 5 ∧ (tsOf demoOps [104]).numEdges = 6 ∧
-          Proj.numEdges ⟨tsOf demoOps [], [5, 77], [100, 999]⟩ = 2 ∧ (AdjMap.build demoOps).numEdges = 5 := by decide
+          Proj.numEdges ⟨tsOf demoOps [], [5, 77], [100, 999]⟩ = 2 ∧ (AdjMap.build demoOps).numEdges = 5 ∧ (AdjMap.build demoOps).numEdgesOld = 5 ∧
+          (AdjMap.build [.edge 10 1 2, .edge 11 1 3, .edge 12 1 2]).numEdges = 2 := by decide
 example : dimensions (AdjMap.build demoOps).nodes (AdjMap.build demoOps).numNodes (fun v => (AdjMap.build demoOps).adjacent v .both) = (5, 3) ∧
           dimensions (Csr.ofOps demoOps).nodes (Csr.ofOps demoOps).numNodes (fun v => (Csr.ofOps demoOps).adjacent v .both) = (5, 4) := by decide
+-- fix3 semantics on a tombstoned store: the projection and NumEdges follow the store
+example : Proj.adjacentT true true ⟨tsOf [.edge 10 1 2, .edge 11 2 3] [10], [], []⟩ 1 .out = [] ∧
+          Proj.adjacentT false true ⟨tsOf [.edge 10 1 2, .edge 11 2 3] [10], [], []⟩ 1 .out = [2] ∧
+          (tsOf [.edge 10 1 2, .edge 11 2 3] [10]).numEdgesT true = 1 ∧ (tsOf [.edge 10 1 2, .edge 11 2 3] [10]).numEdgesT false = 2 := by decide
 -- `IsDist` is not vacuous: 5 is at distance 2 from 7, and not at distance 1
 example : (5 ∈ walkEnds (fun v => (G.ofOps demoOps).adj v .out) 7 2) ∧ ¬ (5 ∈ walkEnds (fun v => (G.ofOps demoOps).adj v .out) 7 1) := by decide
 
